@@ -8,8 +8,8 @@ sys.path.insert(0, '/repo')
 ALL = [f'C{i:02d}' for i in range(1, 21)]
 checks, na = [], []
 fix_commits = []
-kf = json.load(open(os.path.join(VERIF, 'known_findings.json')))
-for k in kf['findings']:
+import common
+for k in common.load_known():
     if k.get('status') == 'fixed' and k.get('commit') and k['commit'] not in fix_commits:
         fix_commits.append(k['commit'])
 NA_REASONS = json.load(open(os.path.join(HERE, 'not_claimed.json'))) if os.path.exists(os.path.join(HERE, 'not_claimed.json')) else {}
